@@ -7,7 +7,8 @@
    its CAS write).  [crc] (crc32c of a body) and [delcrc] are universally quantified; the two theorems about
    bodies assume that crc distinguishes the bodies involved.  [code_fixed = true]: the repaired
    OnDemandImportForWrite / importDoc (see C09_Refuted.v for the code as found). *)
-From SG Require Import Base.Prelude C09.Import C09.ImportInv C09.ImportProcs C09.ImportChar C09.ImportThms.
+From SG Require Import Base.Prelude C09.Import C09.ImportInv C09.ImportProcs C09.ImportChar C09.ImportThms
+  C09.ImportHLV C09.ImportDeep.
 Open Scope N_scope.
 
 Definition reach crc delcrc (ops : list op) : state := run code_fixed crc delcrc init ops.
@@ -144,6 +145,151 @@ Theorem C09_gateway_preserves_external_body : gateway_preserves_external_body_st
 Proof. intros crc delcrc ops o s' r f G E. eapply gateway_preserves_body; eauto. apply reach_Inv. Qed.
 Print Assumptions C09_gateway_preserves_external_body.
 
+(* ======================================================================================================== *)
+(* Deepening: the detection as a total function, exactly-once, body / _mou / version vector of an import      *)
+
+(* 7. [sgw_write_never_imported] a document last written by the gateway (an ACCEPTED write; plain, or with any
+      operation interposed before its CAS write) carries the CAS of that write in _sync.cas: SyncData.IsSGWrite,
+      IsSGWriteXattrOnly and Document.IsSGWrite answer "gateway write" for EVERY body / checksum, delete flag and
+      version vector they are handed, and no read or feed delivery imports it *)
+Theorem C09_sgw_write_never_imported : forall crc delcrc ops o s' f,
+  is_put_op o = true -> step code_fixed crc delcrc (reach crc delcrc ops) o = (s', ROk, f) ->
+  (exists sy, d_sync (doc s') = Some sy /\ s_cas sy = d_cas (doc s') /\
+     (forall rawcrc vv, sd_is_sg_write sy (d_cas (doc s')) rawcrc vv = true) /\
+     (forall isdel vv, sd_xattr_only delcrc sy (d_cas (doc s')) isdel vv = 1) /\
+     (forall raw, doc_is_sg_write crc delcrc (doc s') raw = true)) /\
+  forall o', is_import_op o' = true ->
+    imports (after crc delcrc s' o') = imports s' /\ hist_of (doc (after crc delcrc s' o')) = hist_of (doc s') /\
+    bstate (doc (after crc delcrc s' o')) = bstate (doc s').
+Proof.
+  intros crc delcrc ops o s' f P E.
+  destruct (sgw_write_never_imported crc delcrc _ o s' f (reach_Inv crc delcrc ops) P E) as [St H].
+  split; [apply stamped_detection; exact St | exact H].
+Qed.
+Print Assumptions C09_sgw_write_never_imported.
+
+(* 8. [sdk_write_always_imported_once] a document mutated outside the gateway and not yet recognised (pending) is
+      imported exactly once however many feed events (any recorded event, any multiplicity), on-demand reads,
+      on-demand writes, metadata-only rewrites and races among them follow: never more than once; a read imports it,
+      the delivery of its own feed event imports it, and whatever follows imports nothing more *)
+Theorem C09_sdk_write_always_imported_once : forall crc delcrc ops l,
+  importable crc delcrc (doc (reach crc delcrc ops)) = true -> forallb no_ext_write l = true ->
+  imports (run code_fixed crc delcrc (reach crc delcrc ops) l) <= imports (reach crc delcrc ops) + 1 /\
+  imports (run code_fixed crc delcrc (reach crc delcrc ops) (Read :: l)) = imports (reach crc delcrc ops) + 1 /\
+  (forall k, nth (N.to_nat k) (evs (reach crc delcrc ops)) absent_doc = doc (reach crc delcrc ops) ->
+     imports (run code_fixed crc delcrc (reach crc delcrc ops) (Feed k :: l)) = imports (reach crc delcrc ops) + 1).
+Proof. intros crc delcrc ops l. apply sdk_write_always_imported_once. apply reach_Inv. Qed.
+Print Assumptions C09_sdk_write_always_imported_once.
+
+(* 9. [import_preserves_body] the imported revision is a revision for what the last external writer left: its body
+      is the SDK body, it is a tombstone revision iff the SDK deleted the document, and the import rewrites neither
+      body nor liveness of the bucket document *)
+Theorem C09_import_preserves_body : forall crc delcrc ops o,
+  is_import_op o = true ->
+  imports (after crc delcrc (reach crc delcrc ops) o) <> imports (reach crc delcrc ops) ->
+  exists nr, hist_of (doc (after crc delcrc (reach crc delcrc ops) o)) = nr :: hist_of (doc (reach crc delcrc ops)) /\
+    r_body nr = snd (wb (reach crc delcrc ops)) /\
+    (r_del nr = true <-> fst (wb (reach crc delcrc ops)) = Tomb) /\
+    (r_del nr = false <-> fst (wb (reach crc delcrc ops)) = Alive) /\
+    bstate (doc (after crc delcrc (reach crc delcrc ops) o)) = wb (reach crc delcrc ops) /\
+    wb (after crc delcrc (reach crc delcrc ops) o) = wb (reach crc delcrc ops).
+Proof. intros crc delcrc ops o. apply import_preserves_body. apply reach_Inv. Qed.
+Print Assumptions C09_import_preserves_body.
+
+(* [wb] really is what the last writer left: the body of the last external set, (Tomb, 0) after an external delete *)
+Theorem C09_wb_is_last_external_write : forall crc delcrc ops b,
+  wb (reach crc delcrc (ops ++ [SdkSet b])) = (Alive, b) /\
+  (d_st (doc (reach crc delcrc ops)) <> Absent -> wb (reach crc delcrc (ops ++ [SdkDelete])) = (Tomb, 0)).
+Proof.
+  intros crc delcrc ops b. unfold reach. rewrite !run_snoc. unfold st1. split.
+  - rewrite step_simple by (intros; discriminate). reflexivity.
+  - rewrite step_simple by (intros; discriminate). cbn [simple_step fst]. unfold ext_del, code_fixed.
+    destruct (d_st (doc (run true crc delcrc init ops))); intros NA; [congruence| |]; reflexivity.
+Qed.
+Print Assumptions C09_wb_is_last_external_write.
+
+(* 10. [metadata_only_update_not_reimported] the import's own write is a metadata-only update and is marked as one:
+       _mou.cas = the CAS of that write, _mou.pCas = the CAS of the imported mutation (or the pCas that mutation
+       carried when it was itself a metadata-only update); _sync.cas is stamped too.  The next feed event -- for
+       the import's own write or any other recorded version -- is not imported again, and neither is anything else *)
+Theorem C09_metadata_only_update_not_reimported : forall crc delcrc ops o,
+  is_import_op o = true ->
+  imports (after crc delcrc (reach crc delcrc ops) o) <> imports (reach crc delcrc ops) ->
+  let s' := after crc delcrc (reach crc delcrc ops) o in
+  d_mou (doc s') = Some (mkMou (d_cas (doc s')) (mou_pcas (doc (reach crc delcrc ops)))) /\
+  mou_match (doc s') = true /\ stamped (doc s') /\
+  bstate (doc s') = bstate (doc (reach crc delcrc ops)) /\
+  (forall k, imports (after crc delcrc s' (Feed k)) = imports s' /\
+             bstate (doc (after crc delcrc s' (Feed k))) = bstate (doc (reach crc delcrc ops)) /\
+             hist_of (doc (after crc delcrc s' (Feed k))) = hist_of (doc s')) /\
+  (forall l, forallb no_ext_write l = true -> imports (run code_fixed crc delcrc s' l) = imports s').
+Proof. intros crc delcrc ops o IO NE. apply metadata_only_update_not_reimported; auto. apply reach_Inv. Qed.
+Print Assumptions C09_metadata_only_update_not_reimported.
+
+(* ... and the gateway's other metadata-only rewrite (resync) of a recognised document never triggers an import *)
+Theorem C09_meta_rewrite_not_reimported : forall crc delcrc ops s' r f,
+  own crc delcrc (doc (reach crc delcrc ops)) = true ->
+  step code_fixed crc delcrc (reach crc delcrc ops) GwMetaOnly = (s', r, f) ->
+  imports s' = imports (reach crc delcrc ops) /\ own crc delcrc (doc s') = true /\
+  bstate (doc s') = bstate (doc (reach crc delcrc ops)) /\
+  (r = ROk -> mou_stamped (doc s')) /\
+  (forall l, forallb no_ext_write l = true -> imports (run code_fixed crc delcrc s' l) = imports s').
+Proof. intros crc delcrc ops s' r f. apply meta_rewrite_not_reimported. apply reach_Inv. Qed.
+Print Assumptions C09_meta_rewrite_not_reimported.
+
+(* 11. [import_hlv_dominates_previous] the version vector an import writes: it dominates the previous vector
+       (GetValue-wise: no source is forgotten or moved backwards); unless the mutation already is the current version
+       (_vv.cvCas = cas) or a metadata-only update of it (_mou.cas = cas), the mutation becomes the current version
+       with the gateway's own source id, version = the CAS of the imported mutation, cvCas = that CAS; merge versions
+       are retired into the previous versions; a previous current version of ANOTHER source moves to the previous
+       versions with its value; _sync.rev records the same current version *)
+Theorem C09_import_hlv_dominates_previous : forall crc delcrc ops o,
+  is_import_op o = true ->
+  imports (after crc delcrc (reach crc delcrc ops) o) <> imports (reach crc delcrc ops) ->
+  let d := doc (reach crc delcrc ops) in
+  let d' := doc (after crc delcrc (reach crc delcrc ops) o) in
+  exists v' sy', d_vv d' = Some v' /\ import_hlv d = Some v' /\
+    d_sync d' = Some sy' /\ s_cv sy' = v_ver v' /\ s_cvsrc sy' = v_src v' /\
+    (forall v, d_vv d = Some v -> hlv_dominates v' v) /\
+    (hlv_updated_by_import d = true ->
+       v_src v' = local_src /\ v_ver v' = d_cas d /\ v_cvcas v' = d_cas d /\ v_mv v' = [] /\
+       (d_vv d = None -> v_pv v' = []) /\
+       forall v, d_vv d = Some v ->
+         (v_src v <> local_src -> aget (v_pv v') (v_src v) = Some (v_ver v) /\ aget (v_pv v') local_src = None) /\
+         (v_src v = local_src -> v_ver v <= d_cas d /\ v_pv v' = hlv_invalidate_mv v)) /\
+    (hlv_updated_by_import d = false -> d_vv d = Some v').
+Proof. intros crc delcrc ops o IO NE. apply import_hlv_dominates_previous; auto. apply reach_Inv. Qed.
+Print Assumptions C09_import_hlv_dominates_previous.
+
+(* AddVersion never rejects the import of a reachable document (every value recorded for the gateway's own source is
+   older than the document's CAS), and AddVersion itself never forgets or moves back a source *)
+Theorem C09_import_hlv_never_rejects : forall crc delcrc ops, exists v, import_hlv (doc (reach crc delcrc ops)) = Some v.
+Proof. intros crc delcrc ops. apply (import_hlv_never_rejects crc delcrc). apply reach_Inv. Qed.
+Print Assumptions C09_import_hlv_never_rejects.
+
+Theorem C09_add_version_dominates : forall v src ver v', hlv_add v src ver = Some v' -> hlv_dominates v' v.
+Proof. exact hlv_add_dominates. Qed.
+Print Assumptions C09_add_version_dominates.
+
+(* 12. races: an SDK write of body b landing INSIDE an import -- between the n-th attempt's read / decision and its
+       compare-and-swap write, for a read (on-demand import, which retries on the new document) or a feed delivery
+       (which cancels: ErrImportCasFailure) -- is never lost and never mis-imported: afterwards the bucket holds b, and
+       the document is either recognised with a current revision FOR b or still pending (then imported exactly once
+       later, theorem 8); it is never recognised with a revision for the body the import started from *)
+Theorem C09_raced_import_takes_latest : forall crc delcrc,
+  (forall a b, crc a = crc b -> a = b) -> (forall a, crc a <> delcrc) ->
+  forall ops g n b s' r,
+  is_import_op g = true ->
+  step code_fixed crc delcrc (reach crc delcrc ops) (Race g n (SdkSet b)) = (s', r, true) ->
+  bstate (doc s') = (Alive, b) /\
+  (own crc delcrc (doc s') = true -> exists nr t, hist_of (doc s') = nr :: t /\ r_del nr = false /\ r_body nr = b) /\
+  (own crc delcrc (doc s') = false -> importable crc delcrc (doc s') = true).
+Proof.
+  intros crc delcrc Hi Hd ops g n b s' r IO E.
+  eapply (raced_import_takes_latest crc delcrc Hi Hd); eauto. apply reach_Inv.
+Qed.
+Print Assumptions C09_raced_import_takes_latest.
+
 (* non-vacuity: a concrete history with a gateway write, an external write, a redelivered stale event, a racing
    pair of import paths and a metadata-only rewrite: exactly one import, for the external body *)
 Example C09_nonvacuous :
@@ -166,4 +312,28 @@ Example C09_nonvacuous_migration :
   | Some a, Some b => s_att a = true /\ s_att b = false
   | _, _ => False
   end.
+Proof. vm_compute. repeat split; reflexivity. Qed.
+
+(* ... and one with a document replicated from another cluster (current version of source 7, a merge version of
+   source 8, previous versions of source 9 and of the gateway's own source): the import of a later SDK write makes the
+   mutation the current version (own source, version = its CAS 2) and moves 7@5 and 8@3 to the previous versions *)
+Example C09_nonvacuous_hlv :
+  let h := mkVV 7 5 0 [(8, 3)] [(9, 1); (0, 0)] in
+  let s := reach N.succ 0 [ForeignWrite 1 h; SdkSet 2; Read; Feed 3; GwMetaOnly; Feed 4] in
+  imports s = 1 /\
+  match d_vv (doc s) with
+  | Some v => v_src v = 0 /\ v_ver v = 2 /\ v_cvcas v = 2 /\ v_mv v = [] /\
+              aget (v_pv v) 7 = Some 5 /\ aget (v_pv v) 8 = Some 3 /\ aget (v_pv v) 9 = Some 1 /\ aget (v_pv v) 0 = None
+  | None => False
+  end /\ cancels s = 0 /\ imperrs s = 0.
+Proof. vm_compute. repeat split; reflexivity. Qed.
+
+(* ... and the retry path: an SDK write landing inside an on-demand import is imported by the retry (one import, for
+   the NEW body); landing inside a feed import it makes the feed import cancel (ImportCancelCAS) and stays pending *)
+Example C09_nonvacuous_retry :
+  let s0 := reach N.succ 0 [GwWrite 1; SdkSet 2] in
+  let '(s1, r1, f1) := step code_fixed N.succ 0 s0 (Race Read 1 (SdkSet 3)) in
+  let '(s2, r2, f2) := step code_fixed N.succ 0 s0 (Race (Feed 2) 1 (SdkSet 3)) in
+  f1 = true /\ imports s1 = 1 /\ hist_of (doc s1) = [R 2 1 false 3; R 1 0 false 1] /\ bstate (doc s1) = (Alive, 3) /\
+  f2 = true /\ imports s2 = 0 /\ cancels s2 = 1 /\ importable N.succ 0 (doc s2) = true /\ bstate (doc s2) = (Alive, 3).
 Proof. vm_compute. repeat split; reflexivity. Qed.
